@@ -28,6 +28,20 @@ CHECKS = {
 
 NOT_APPLICABLE = []
 
+CHECKS['C16'] = (
+    'symbolic execution of every exposed controller method (enumerated from '
+    'the live controller tree) with the verdict of each policy rule as a '
+    'solver variable and recording stubs for database / RPC / services; the '
+    'oslo.policy check trees of all registered rules translated to z3 '
+    '(polir); symbolic state-change requests through the real guards',
+    'Every exposed method with a documented rule asks a registered rule '
+    'before its first effect, a denied caller gets 403 with zero effects, '
+    'cross-project listing asks an admin-only rule; no rule is weaker than '
+    'admin-or-owner and list:all_projects / publicize are admin-only; '
+    'execution / task state changes and execution deletion reach the engine '
+    'or the database only for the documented moves.',
+    '§3 C16')
+
 CHECKS['C15'] = (
     'symbolic execution of every get / load / list / update / delete db-api '
     'function of the 11 secured resource types on minidb: the real WHERE '
